@@ -71,7 +71,9 @@ def c09_program(rng):
         core = A.Union(pf, *subs)
     elif r == 7: core = A.GreedyRange(A.Select(c09_alt(rng, 0), c09_alt(rng, 0)))
     else: core = A.Peek(A.Select(c09_alt(rng), A.Error))
-    r2 = rng.randrange(4)
+    r2 = rng.randrange(5)
+    if r2 == 4:     # inside a length-limited region that does not start at offset 0 (end-relative targets are relative to the region's end)
+        return A.Struct(A.Renamed("h", A.Bytes(rng.choice([1, 2, 3]))), A.Renamed("p", A.Prefixed(A.Alias("Byte"), A.Struct(A.Renamed("x", core), A.Renamed("r", A.GreedyBytes)))), A.Renamed("t", A.Tell))
     if r2 == 0: return core
     if r2 == 1: return A.Struct(A.Renamed("x", core), A.Renamed("rest", A.GreedyBytes))
     if r2 == 2: return A.Struct(A.Renamed("h", A.Bytes(rng.choice([1, 2]))), A.Renamed("x", core), A.Renamed("t", A.Tell), A.Renamed("n", A.Alias("Byte")))
@@ -195,7 +197,10 @@ def sys_leaves():
           A.Computed(A.C(5)), A.Pass, A.Padding(2), A.Tell,
           # wrappers that size their window from the member's sizeof at construction, over members that exactly fill their alignment
           A.ByteSwapped(A.AlignedStruct(2, A.Renamed("a", A.Alias("Int16ub")), A.Renamed("b", A.Alias("Int8ub")))), A.BitsSwapped(A.Aligned(4, A.Alias("Int32ub"))),
-          A.Bitwise(A.Aligned(8, A.Struct(A.Renamed("a", A.Alias("Nibble")), A.Renamed("b", A.Alias("Nibble")))))]
+          A.Bitwise(A.Aligned(8, A.Struct(A.Renamed("a", A.Alias("Nibble")), A.Renamed("b", A.Alias("Nibble"))))),
+          # a read to the end of a streaming bit-level region that starts in the middle of a byte
+          A.Bitwise(A.Struct(A.Renamed("a", A.Alias("Nibble")), A.Renamed("rest", A.GreedyBytes))),
+          A.Bitwise(A.Struct(A.Renamed("a", A.BitsInteger(3)), A.Renamed("rest", A.GreedyRange(A.BitsInteger(5)))))]
     return L
 
 def sys_wrappers():
